@@ -5,7 +5,7 @@
 (*   {"ev":"begin"}                         a new run (fixed NRows, Items)    *)
 (*   {"ev":"row","r"}                       the main goroutine starts row r   *)
 (*   {"ev":"start","r","i"} / {"ev":"finish","r","i"}   a qualified call      *)
-(*   {"ev":"ret","ok","rows"}               Exec has returned                 *)
+(*   {"ev":"ret","ok","rows"}               Exec has returned (ok = no error) *)
 (* Every event must be an enabled action of Async.tla: in particular "ret"    *)
 (* is only enabled once the wait group has drained.                           *)
 (***************************************************************************)
@@ -21,6 +21,8 @@ Items1 == <<"async", "spinasync", "sync">>
 Items2 == <<"once", "async", "spin">>
 Items3 == <<"async", "col", "async">>
 Items4 == <<"spinasync", "async", "async", "once">>
+Items5 == <<"async", "fail", "spinasync">>
+Items6 == <<"spinasync", "async", "fail">>
 
 Note(ok, what, exp) ==
     IF ok THEN TRUE
@@ -51,8 +53,11 @@ ExpectedRow(r, cl) ==
     IN  ObjV([k \in {"m"} \cup {KeyName(i) : i \in present} |->
                IF k = "m" THEN NumV(r) ELSE NumV(cl[r][CHOOSE i \in present : KeyName(i) = k])])
 TRet ==
-    /\ l <= Len(Trace) /\ E.ev = "ret" /\ pc = "wait" /\ wg = 0 /\ Return
-    /\ Note(E.ok /\ E.rows = [r \in Rows |-> ExpectedRow(r, cell')], "api", [rows |-> [r \in Rows |-> ExpectedRow(r, cell')]])
+    /\ l <= Len(Trace) /\ E.ev = "ret" /\ pc \in {"wait", "failed"} /\ wg = 0 /\ Return
+    /\ IF pc = "failed"
+       THEN Note(~E.ok, "api", [error |-> "expected"])
+       ELSE IF EmptyWindow THEN Note(E.ok /\ E.rows = <<>>, "api", [rows |-> <<>>])
+       ELSE Note(E.ok /\ E.rows = [r \in Rows |-> ExpectedRow(r, cell')], "api", [rows |-> [r \in Rows |-> ExpectedRow(r, cell')]])
     /\ Consume
 
 \* an event the specification cannot take here: Exec returning before the wait group drained, a call
@@ -62,7 +67,7 @@ Stuck ==
     /\ \/ E.ev = "row" /\ ~(pc = "rows" /\ next = E.r)
        \/ E.ev = "start" /\ ~(C_ \in Calls /\ st[C_] = "spawned")
        \/ E.ev = "finish" /\ ~(C_ \in Calls /\ st[C_] = "running")
-       \/ E.ev = "ret" /\ ~(pc = "wait" /\ wg = 0)
+       \/ E.ev = "ret" /\ ~(pc \in {"wait", "failed"} /\ wg = 0)
     /\ Note(FALSE, "api", [unexpected |-> E, pc |-> pc, wg |-> wg])
     /\ Consume /\ UNCHANGED avars
 
